@@ -232,6 +232,8 @@ def impl_channel(kind, tag, s, attrname="v"):
             return {"err": "pyxform", "msg": str(e)}
         try:
             el = node(tag, text, toParseString=changed)
+        except PyXFormError as e:
+            return {"err": "pyxform", "msg": str(e)}
         except Exception as e:  # noqa: BLE001 expat error on the re-parse
             return {"err": "reparse", "msg": f"{type(e).__name__}: {e}"}
         return {"xml": el.toxml(), "inserted": text, "changed": changed}
@@ -251,7 +253,9 @@ def corr_case(ctx, kind, s):
         return
     ctx.count("corr:in_fragment")
     if "err" in i or m.get("err"):
-        if i.get("err") != m.get("err"):
+        # observation level: is there an element at all?  (Which exception class a rejection uses is C17's
+        # business; a crash of the re-parse is judged by the oracle just below.)
+        if bool(i.get("err")) != bool(m.get("err")):
             ctx.mismatch(f"chan.{kind}: outcome", case, i, m)
         if i.get("err") == "reparse":
             # oracle, function level: the channel crashed on user text (an internal error, not a PyXFormError)
